@@ -1110,9 +1110,9 @@ dt_strfd(char *restrict buf, size_t bsz, const char *fmt, struct dt_d_s that)
 			fmt = ymd_dflt;
 			break;
 		default:
-			/* fuck */
-			abort();
-			break;
+			/* no specifier based default format */
+			bp = buf;
+			goto out;
 		}
 	}
 
